@@ -13,14 +13,21 @@
 (*      Zone!ParseEntry, must spell exactly the abstract lines it was made     *)
 (*      from (pure-function event; a failure is a harness bug).                *)
 (*      illtext{text, ill}: the text is lexically ill-formed in the given way  *)
-(*      (or, ill = "nested", a $GENERATE that expands to a $GENERATE).         *)
-(* C07  parser{allowed, chain}  next{res: rr | err | eof, id}  open{path}      *)
+(*      (or, ill = "nested", a $GENERATE that expands to a $GENERATE; or, ill  *)
+(*      = "bad", lexically well-formed with an entry that is not an entry).    *)
+(* C07  parser{allowed, chain[, origin]}  next{res: rr | err | eof, id}         *)
+(*      open{path}  poll{res: err | nil, id}  (Err() asked between two Next)   *)
 (*      readfail (a reader handed the parser an I/O error)                     *)
 (*      the safety side of Zone's machine with the line content abstracted     *)
 (*      away: these events drive Zone's own variables err / out / opens.  A    *)
 (*      history is accepted only if no record and no Open follows an error,    *)
 (*      the error stays the same error, Open happens only when includes are    *)
 (*      allowed, and a chain of nested includes stops after MaxDepth Opens.    *)
+(*      An error exists as soon as Err() says so -- not only once Next has     *)
+(*      returned (nil, false): a `poll' that shows an error puts the machine   *)
+(*      in the error state, and a parser made with an initial origin that      *)
+(*      Zone!OriginOfText refuses owes an error from the start (only next ->   *)
+(*      err is admitted, as after readfail).                                   *)
 (*      These events block: the first one the machine cannot take is the       *)
 (*      high-water mark.                                                       *)
 EXTENDS Zone, TraceBase
@@ -62,14 +69,19 @@ NestedGenerate(text) ==
   /\ LET s == Subst(its[3].raw, RangeOf(its[2].raw).lo) IN s.st = "ok" /\ Upper(s.s) = kGENERATE
 IllEv ==
   /\ Ev.ev = "illtext"
-  /\ (IF (IF Ev.ill = "nested" THEN NestedGenerate(Ev.text) ELSE Lex(Ev.text).ill = Ev.ill) THEN TRUE ELSE MarkBad(l))
+  /\ (IF (CASE Ev.ill = "nested" -> NestedGenerate(Ev.text)
+            [] Ev.ill = "bad"    -> LinesOfText(Ev.text).st = "bad"      \* lexically fine, but some entry is not an entry
+            [] OTHER             -> Lex(Ev.text).ill = Ev.ill) THEN TRUE ELSE MarkBad(l))
   /\ UNCHANGED <<S, tcfg, perr, chain, rfail, zvars>>
 
 \* ---- C07: Zone's variables driven by what was observed at the parser's surface
 Rest == <<pol, origin, lastOwner, dirTTL, lastTTL, errln, undef, depth, dir, nline>>
+\* the initial origin, where the history states it (text): one that is not a domain name is a problem the parser has
+\* from the start -- like a failed reader, it has to be reported: the only result admitted is next -> err
+BadStart == "origin" \in DOMAIN Ev /\ OriginOfText(Ev.origin).st = "err"
 ParserEv == /\ Ev.ev = "parser"
             /\ cfg' = [cfg EXCEPT !.incAllowed = Ev.allowed]
-            /\ err' = FALSE /\ out' = <<>> /\ opens' = <<>> /\ perr' = 0 /\ chain' = Ev.chain /\ rfail' = FALSE
+            /\ err' = FALSE /\ out' = <<>> /\ opens' = <<>> /\ perr' = 0 /\ chain' = Ev.chain /\ rfail' = BadStart
             /\ UNCHANGED <<S, tcfg, Rest>>
 NextRR  == /\ Ev.ev = "next" /\ Ev.res = "rr"
            /\ ~err                                               \* no record once an error has occurred
@@ -93,6 +105,14 @@ OpenEv  == /\ Ev.ev = "open"
            /\ UNCHANGED <<S, tcfg, perr, chain, rfail, cfg, err, out, Rest>>
 \* the zone's reader, or the reader of an included file, returned an I/O error to the parser (seen from outside,
 \* by the wrapper that injects it): the problem has to be reported -- the next results can only be `err'
+\* Err() asked between two calls of Next.  A non-nil answer IS "an error has occurred": from then on no record, no
+\* Open, no clean end, and every later answer is this same error; a nil answer after an error is an error that vanished.
+PollEv  == /\ Ev.ev = "poll"
+           /\ IF Ev.res = "err"
+              THEN /\ (IF err THEN Ev.id = perr /\ UNCHANGED perr ELSE perr' = Ev.id)
+                   /\ err' = TRUE
+              ELSE ~err /\ UNCHANGED <<perr, err>>
+           /\ UNCHANGED <<S, tcfg, chain, rfail, cfg, out, opens, Rest>>
 ReadFail == /\ Ev.ev = "readfail"
             /\ rfail' = TRUE
             /\ UNCHANGED <<S, tcfg, perr, chain, zvars>>
@@ -101,7 +121,7 @@ NoCfg == [defTTL |-> -1, origin |-> NoName, incAllowed |-> FALSE, file |-> <<>>,
 Init == /\ l = 1 /\ HWInit /\ S = {} /\ tcfg = NoCfg /\ perr = 0 /\ chain = FALSE /\ rfail = FALSE
         /\ ZInit(NoCfg) /\ pol = [io |-> FALSE, it |-> FALSE, go |-> FALSE, gt |-> FALSE]
 Next == /\ l <= Len(Trace)
-        /\ StartEv \/ LineEv \/ SpellEv \/ IllEv \/ ParserEv \/ NextRR \/ NextErr \/ NextEOF \/ OpenEv \/ ReadFail
+        /\ StartEv \/ LineEv \/ SpellEv \/ IllEv \/ ParserEv \/ NextRR \/ NextErr \/ NextEOF \/ OpenEv \/ PollEv \/ ReadFail
         /\ HW(l)
         /\ l' = l + 1
 =============================================================================
